@@ -59,6 +59,9 @@ IDIOMS = {
     'I19': 'M.retain(|K, _| { *K >= A && *K <= B });  =>  idiom_retain_key_range(&mut M, A, B);',
     'I16': 'if C { continue; } REST }  =>  if !(C) { REST } }   (only where nothing but closing braces lies between the end of the enclosing block and the end of the loop body: `continue` == skip REST)',
     'I21': 'println!(ARGS)  =>  verif_println!(stdout__, ARGS)   (the process-global stdout made an explicit ghost line log)',
+    'I25': 'X.chunks(2).filter(|c| c.len() == 2).map(|c| sha256d::Hash::hash(&[c[0], c[1]].concat())).collect::<Vec<sha256d::Hash>>()  =>  idiom_hash_pairs(&X)   (hash of every complete adjacent pair, in order)',
+    'I26': '[&A[..], &B[..]].concat()  =>  idiom_concat_hashes(A, B)   (the bytes of two hashes, concatenated)',
+    'I27': 'X.iter().map(|tx| tx.hash).collect::<Vec<sha256d::Hash>>()  =>  idiom_tx_hashes(&X)   (the hash field of every element, in order)',
     'I24': 'PATH(ARGS).expect(MSG)  =>  idiom_expect(PATH(ARGS), MSG)   (Result::expect: returns only when the result is Ok, panics otherwise)',
     'A1': 'abstract-expression: `expr` => havoc::<T>() (unconstrained value)',
 }
@@ -665,6 +668,24 @@ def apply_idiom(ed, text, base, body_rel, loops, rest, item_id, log, rel, src):
             if not h:
                 raise GenError('I9 shape mismatch: %s' % flat)
             new = 'idiom_checked_sub_or_default(%s, %s)' % h.groups()
+        elif rule == 'I25':
+            sq = re.sub(r'\s+', '', anchor)
+            h = re.match(r'^([\w\.]+)\.chunks\(2\)\.filter\(\|c\|c\.len\(\)==2\)\.map\(\|c\|sha256d::Hash::hash\(&\[c\[0\],c\[1\]\]\.concat\(\)\)\)\.collect::<Vec<sha256d::Hash>>\(\)$', sq)
+            if not h:
+                raise GenError('I25 shape mismatch: %s' % sq)
+            new = 'idiom_hash_pairs(&%s)' % h.group(1)
+        elif rule == 'I26':
+            sq = re.sub(r'\s+', '', anchor)
+            h = re.match(r'^\[&(\w+)\[\.\.\],&(\w+)\[\.\.\]\]\.concat\(\)$', sq)
+            if not h:
+                raise GenError('I26 shape mismatch: %s' % sq)
+            new = 'idiom_concat_hashes(%s, %s)' % h.groups()
+        elif rule == 'I27':
+            sq = re.sub(r'\s+', '', anchor)
+            h = re.match(r'^([\w\.]+)\.iter\(\)\.map\(\|tx\|tx\.hash\)\.collect::<Vec<sha256d::Hash>>\(\)$', sq)
+            if not h:
+                raise GenError('I27 shape mismatch: %s' % sq)
+            new = 'idiom_tx_hashes(&%s)' % h.group(1)
         elif rule == 'I10':
             h = re.match(r'^&sha256d::Hash::hash\(&(\w+)\)\[(\d+)\.\.(\d+)\]$', flat)
             if not h:
